@@ -15,7 +15,7 @@ import (
 
 func init() { Registry["C06"] = C06 }
 
-var c06Lines = []string{"ab", "cd", "xa", "yb", "xaya", "{{d}}x", "##! xa", "", "baa"}
+var c06Lines = []string{"ab", "cd", "xa", "yb", "xaya", "{{d}}x", "##! xa", "", "baa", "\f", " \u00a0"}
 var c06Words = []string{"ab", "cd", "xa", "yb", "xaya", "{{d}}x", "yx", "zz"}
 var c06Pairs = [][][2]string{
 	nil,
